@@ -146,7 +146,7 @@ Proof.
   assert (H3 : forall t s2, enc_va false v ++ tail <> 3 :: t :: s2).
   { intros t s2 E. unfold enc_va in E. cbn [app] in E. injection E as E _. destruct W; cbn [venc] in *; try discriminate E. apply Hne. reflexivity. }
   destruct (va_read_source rf rp fo po k (enc_va false v ++ tail) m h Hb H3) as (f0 & F). exists f0. intros f Hf.
-  destruct (F f Hf) as (st & fin & C & _ & MT & Out). specialize (MT Hk).
+  destruct (F f Hf) as (st & fin & C & _ & MT & Out & _). specialize (MT Hk).
   destruct (rspec_va false v W B) as [E _]. rewrite (E tail) in MT. destruct MT as (-> & MS).
   exists fin. split; [exact C|]. split; [exact MS|]. destruct Out as [(_ & Hh & _)|(Hn & _)]; [exact Hh|unfold SBDF_OK in Hn; lia].
 Qed.
